@@ -78,7 +78,7 @@ prop('C01',
                  'is the sum of its pointwise values.')
 
 prop('C02',
-     [iface.r02_1, iface.r02_7, iface.r02_6, wrappers.r02_2, forward.r02_8, CUR_HIER,
+     [iface.r02_1, iface.r02_7, iface.r02_6, wrappers.r02_2, forward.r02_8, forward.r02_10, CUR_HIER,
       layout.r02_3, layout.r02_4, layout.r07_1, popmodels.r05_2,
       layout.r05_3, layout.r05_6, layout.r02_9, contracts.r05_7],
      undecided=['numerical equality of the score with the hand-assembled sum',
@@ -191,7 +191,7 @@ prop('C07',
 
 prop('C08',
      [reduced.r08_1, reduced.r08_2, reduced.r08_3, reduced.r08_4, reduced.r08_6,
-      caches.r08_5, switch.r08_7, wrappers.r02_2, forward.r02_8, iface.r02_7,
+      caches.r08_5, switch.r08_7, wrappers.r02_2, forward.r02_8, forward.r02_10, iface.r02_7,
       copies.r19_3, atomic.r11_9, atomic.r11_10],
      undecided=['value equality of evaluations', 'nan in released slots'],
      assumptions=COMMON_ASSUME,
@@ -231,7 +231,7 @@ prop('C09',
                  'SBML files equal the documented equations.')
 
 prop('C10',
-     [dosing.r10_1, dosing.r10_2, dosing.r10_5, predictive.r10_6, mech.r11_1, problems.r14_3,
+     [dosing.r10_1, dosing.r10_2, dosing.r10_5, dosing.r10_7, predictive.r10_6, mech.r11_1, problems.r14_3,
       problems.r14_4],
      undecided=['count and boundary arithmetic of the regimen table over '
                 'run-time floats (int(final_time // period), doses exactly '
